@@ -595,7 +595,7 @@ func TestC08(t *testing.T) {
 		"oracle: ONNX index formulas over flat arrays; valid requests may be refused with an error (statement), never answered with other data or another shape")
 	defer reportKnownFindings("C08")
 
-	check(t, "ops", 40000, 150000, func(rt *rapid.T) {
+	check(t, "ops", 40000, 400000, func(rt *rapid.T) {
 		c := c08Gen(rt)
 		res := runOp(c.op, c.node, c.inputs())
 		cls := []string{"op-" + c.op}
